@@ -3,9 +3,10 @@ import math
 from datetime import timedelta as _td
 
 import numpy as np
+import z3
 
-from symx.case import Case, Ang, run_cases, replay_cases
-from symx.core import R, Dual, CTX
+from symx.case import Case, Ang, Holds, run_cases, replay_cases
+from symx.core import R, Dual, CTX, SB
 from symx.stubs import SymDate, SymTD, carrier
 
 PROPERTY = "C16"
@@ -257,12 +258,27 @@ def man_case(kind, orientation="QSW"):
         try:
             mk_orb(env, prop, _x0(v), mans=mans(env, v))
             out = prop.propagate(mk_date(env, v["t"]))
-            return {"x": list(out)}
+            res = {"x": list(out)}
+            if kind == "impulsive":
+                # propagate() is a pure function of (orbit, date): the orbit held by the propagator is left as it was, and
+                # asking again gives the same answer
+                again = prop.propagate(mk_date(env, v["t"]))
+                held = prop.orbit if not env.symbolic else prop._orbit
+                res["held_orbit_untouched"] = [held[k] - _x0(v)[k] for k in range(6)]
+                res["same_answer_again"] = [again[k] - out[k] for k in range(6)]
+            return res
         finally:
             if not env.symbolic:
                 _restore()
 
     def ref(env, v, out):
+        r = _ref(env, v, out)
+        if kind == "impulsive":
+            r["held_orbit_untouched"] = [0] * 6
+            r["same_answer_again"] = [0] * 6
+        return r
+
+    def _ref(env, v, out):
         n, t, tm, dur = v["n"], v["t"], v["tm"], v["dur"]
         P = PERM if orientation == "TNW" else np.identity(3, dtype=int)
 
@@ -625,8 +641,37 @@ def man_cases(tier):
     return cs
 
 
+def copy_case():
+    """a propagated orbit carries `propagator.copy()`: the copy has the same target radius and the same Hill frame (orientation)
+    as the original, whatever Hill frames have been created in the meantime -- otherwise propagating a returned orbit further
+    uses the matrices of another orientation"""
+    ins = [("sma", "pos")]
+
+    def run(env, v):
+        import importlib
+        cw = _mods(env) if env.symbolic else importlib.import_module("beyond.propagators.cw")
+        fr = importlib.import_module("beyond.frames.frames")
+        try:
+            first = fr.HillFrame("TNW")
+            p = cw.ClohessyWiltshire(v["sma"] if env.symbolic else 7e6 * (1 + float(v["sma"]) % 5), frame=first)
+            fr.HillFrame("QSW")                      # another propagator is set up afterwards (it becomes the default "Hill")
+            q = p.copy()
+            same = q is not p and q.frame is first and q.frame.orientation == "TNW"
+            if env.symbolic:
+                return {"sma": q.sma, "frame": Holds(SB(z3.BoolVal(bool(same))))}
+            return {"sma": float(q.sma) / float(p.sma) * float(v["sma"]), "frame": Holds(bool(same))}
+        finally:
+            _restore()
+
+    def ref(env, v, out):
+        return {"sma": v["sma"], "frame": None}
+    return Case("config/copy", ins, run, ref, timeout=30, tol=1e-12, abs_tol=0,
+                desc="ClohessyWiltshire.copy() -- the propagator handed to every propagated orbit -- keeps the target radius and the "
+                     "Hill frame of the original, also when another Hill frame has been created since")
+
+
 def all_cases(tier):
-    return cases(tier) + man_cases(tier) + helper_cases(tier)
+    return cases(tier) + man_cases(tier) + helper_cases(tier) + [copy_case()]
 
 
 def groups(tier):
